@@ -176,7 +176,7 @@ def _proj(u, atoms, lut, exact):
         cfl = float(coeff)
     except Exception:  # noqa: BLE001
         cfl = float("nan")
-    c1 = coeff is sympy.S.One or coeff == 1
+    c1 = coeff is sympy.S.One or coeff == 1 or cfl == 1.0  # a Float 1.0 left by 4 * 0.25 counts as "no coefficient"
     clg, clgok = ([0, 1], True)
     if exact:
         clg, clgok = _snap_lg(cfl)
